@@ -24,7 +24,9 @@ TRUSTED_BASE = [
     "scipy.stats.norm.cdf values are supplied by the harness to both sides (the distribution function itself is not "
     "verified); FITPACK order-1 spline = piecewise-linear interpolation (1e-10)",
     "the R reference cannot be run here (no Rscript): its algorithm (200 cells) is the model with ncell = 200",
+    "translator tools/gen_formulas.py: the arithmetic of the named source functions (an expression, or a whole body of assignments, if and return) as Python's own `ast` parses it -> Lean terms over the carrier class in lean/FormulaTie/Gen*.lean; that each is the model's definition is re-checked by `rfl` / a short unfolding on every run (lean/FormulaTie/*.lean)",
 ]
+FORMULA_TIE = ('Peatclsm',)
 ASSUMPTIONS = ["parameters within the calibration bounds of the generated control file: sd in (0, 2], theta_s in "
                "[0.01, 1], b in [0.01, 20], psi_s in [-1, -0.01]; alpha > 1"]
 RULE = ("parameter sets drawn from the calibration bounds (plus the published set); the 201 knot values and values at "
